@@ -120,12 +120,12 @@ struct Fin {
 	}
 };
 
-template<int D>
+template<int D, class Cfg = vp::CfgRaw>
 void run_d(Input const& in, Ctx& ctx) {
-	auto r = vp::decode_root<D, false>(in, ctx);
-	vp::with_root<vp::CfgRaw, int, D>(r, [&](auto& root, Model m, int const* base, long N) {
+	auto r = vp::decode_root<D, Cfg::based>(in, ctx);
+	vp::with_root<Cfg, int, D>(r, [&](auto& root, Model m, int const* base, long N) {
 		Fin fin{const_cast<int*>(base), N, ctx, in};
-		vp::Interp<Fin, false, 4> interp(in, ctx, fin);
+		vp::Interp<Fin, Cfg::based, 4> interp(in, ctx, fin);
 		interp.null_root = (N == 0);
 		vp::check_shape(root, m, "construction");
 		interp.step(root, m);
@@ -138,6 +138,15 @@ struct Prop {
 	static constexpr int H = 13, R = 4, MAXOPS = 5;
 	static void run(Input const& in, Ctx& ctx) {
 		ctx.desc << "[negative] ";
+		if((in.head(12) & 1U) != 0) {  // roots whose valid indices do not start at zero (and reindexed / blocked among the operations): "below the first index" is not "negative"
+			ctx.desc << "(re-based) "; ctx.label("rebased_root");
+			switch(in.head(1) % 3) {
+				case 0: run_d<1, vp::CfgBased>(in, ctx); break;
+				case 1: run_d<2, vp::CfgBased>(in, ctx); break;
+				default: run_d<3, vp::CfgBased>(in, ctx); break;
+			}
+			return;
+		}
 		switch(in.head(1) % 3) {
 			case 0: run_d<1>(in, ctx); break;
 			case 1: run_d<2>(in, ctx); break;
